@@ -54,7 +54,7 @@ fn fallible(input: &[u8]) -> Vec<(&'static str, Result<ByteString, std::str::Utf
     macro_rules! arr {
         ($($n:expr)+) => { match input.len() { $( $n => { let a: [u8; $n] = input.try_into().unwrap(); v.push(("[u8;N]", ByteString::try_from(a))); v.push(("&[u8;N]", ByteString::try_from(&a))); } )+ _ => {} } }
     }
-    arr!(0 1 2 3 4 5 6);
+    arr!(0 1 2 3 4 5 6 7 8);
     v
 }
 
@@ -161,7 +161,7 @@ fn check_value(name: &str, bs: &ByteString, s: &str, input: &[u8], out: &mut Vec
 
 pub fn run(args: &Args) -> i32 {
     let mut rep = Report::new(args, "exploration");
-    let max_len = args.opt_usize("len", 5);
+    let max_len = args.opt_usize("len", args.tier.pick(6, 7));
     if let Some(p) = &args.replay {
         let r = mcutil::load_replay(p);
         let input: Vec<u8> = r["input"].as_array().unwrap().iter().map(|b| b.as_u64().unwrap() as u8).collect();
